@@ -145,3 +145,11 @@ chk('C13', 'model_checking',
     'number of crossings of each edge with each node\'s centre line on either side of the centre is unchanged -- which is exactly what pulling an edge through a node would flip.',
     'Straight initial edges that clear all other nodes; one node dragged with weight 10000; 4..9 nodes. Motion inside one solve() is not observed.',
     'TLA+ state invariants + single-axis step property; record validation of solver steps', '4/C13')
+chk('C14', 'model_checking',
+    'HolaPipeline.tla judges the graph handed back by every doHOLA() run on the 1/64 lattice: same node ids and edge set, sizes unchanged, no two nodes overlapping, every route made of axis-parallel '
+    'segments from one end node to the other (within the per-side node padding 0.25*IEL/2) and clear of every third node, and every separation constraint compiled from the returned SepMatrix '
+    '(SepPair::generateSeparationConstraint, meaning as in SepCo.tla) satisfied by the returned centres. The Logger seam supplies the last logged state of the planar graph P, which the spec uses to '
+    'tell a stale constraint of the core from a constraint the returned positions were solved under.',
+    'Seeded random connected simple graphs of 2..14 (quick) / 2..25 (thorough) nodes in the shapes the property lists, catalogue node sizes, random start positions, 8 option vectors. '
+    'Runs that leave by std::runtime_error ("No feasible expansions", "Infeasible collateral tree sep") return no drawing and are counted, not judged. Tolerance 2/64. Phase-by-phase invariants are not checked.',
+    'TLA+ postcondition over recorded doHOLA results; Logger-seam state of the planar graph', '4/C14')
